@@ -28,7 +28,15 @@ const (
 	aNonNil
 )
 
-func (a absv) String() string { return [...]string{"?", "T", "F", "nil", "set"}[a] }
+// small integer constants (an enum-typed state variable) are absv values from aConstBase upwards
+const aConstBase absv = 100
+
+func (a absv) String() string {
+	if a >= aConstBase {
+		return fmt.Sprintf("k%d", int(a-aConstBase))
+	}
+	return [...]string{"?", "T", "F", "nil", "set"}[a]
+}
 
 type symb struct {
 	name string
@@ -61,7 +69,7 @@ func (s *mstate) key(order []*ssa.Phi, corder []*ssa.Alloc) string {
 
 func trackedType(t types.Type) bool {
 	if b, ok := t.Underlying().(*types.Basic); ok {
-		return b.Kind() == types.Bool
+		return b.Kind() == types.Bool || b.Info()&types.IsInteger != 0
 	}
 	return nilable(t)
 }
@@ -90,6 +98,19 @@ func (it *interp) eval(v ssa.Value, env map[ssa.Value]absv, cells map[*ssa.Alloc
 				return aTrue, "state"
 			}
 			return aFalse, "state"
+		}
+		if k, ok := core.ConstInt(x); ok && k >= 0 && k < 64 {
+			return aConstBase + absv(k), "state"
+		}
+		return aUnknown, "unknown"
+	case *ssa.Convert:
+		if a, src := it.eval(x.X, env, cells); a >= aConstBase {
+			return a, src
+		}
+		return aUnknown, "unknown"
+	case *ssa.ChangeType:
+		if a, src := it.eval(x.X, env, cells); a >= aConstBase {
+			return a, src
 		}
 		return aUnknown, "unknown"
 	case *ssa.UnOp:
@@ -147,6 +168,21 @@ func (it *interp) eval(v ssa.Value, env map[ssa.Value]absv, cells map[*ssa.Alloc
 						}
 						return aFalse, "scenario"
 					}
+				}
+			}
+			// two known small constants (enum-typed state variable against one of its values)
+			{
+				la, ls := it.eval(x.X, env, cells)
+				ra, rs := it.eval(x.Y, env, cells)
+				if la >= aConstBase && ra >= aConstBase {
+					src := ls
+					if rs != "state" {
+						src = rs
+					}
+					if (la == ra) == (x.Op == token.EQL) {
+						return aTrue, src
+					}
+					return aFalse, src
 				}
 			}
 			if y, trueMeansNil, ok := core.NilCmp(x); ok {
@@ -432,6 +468,8 @@ func (c *Ctx) checkMultiplicity(d *decoder, rep *decCase, ref map[int64]refField
 		// zero value of a declared local: false / nil
 		if b, ok := al.Type().Underlying().(*types.Pointer).Elem().Underlying().(*types.Basic); ok && b.Kind() == types.Bool {
 			init.cells[al] = aFalse
+		} else if ok && b.Info()&types.IsInteger != 0 {
+			init.cells[al] = aConstBase
 		} else {
 			init.cells[al] = aNil
 		}
@@ -1374,12 +1412,38 @@ func (c *Ctx) checkPackedCount() {
 			if li.rng == nil {
 				continue
 			}
-			ex, ok := resolveLocal(li.rng).(*ssa.Extract)
-			if !ok || ex.Index != 0 {
-				continue
+			isPackedPayload := func(v ssa.Value) bool {
+				ex, ok := resolveLocal(v).(*ssa.Extract)
+				if !ok || ex.Index != 0 {
+					return false
+				}
+				call, ok := ex.Tuple.(*ssa.Call)
+				return ok && isPW(call, "ConsumeBytes")
 			}
-			call, ok := ex.Tuple.(*ssa.Call)
-			if !ok || !isPW(call, "ConsumeBytes") {
+			if p, isParam := resolveLocal(li.rng).(*ssa.Parameter); isParam && (fn.Object() == nil || !fn.Object().Exported()) {
+				// the counting loop lives in a helper: the payload is the helper's parameter, bound at its call sites
+				pi := -1
+				for i, q := range fn.Params {
+					if q == p {
+						pi = i
+					}
+				}
+				nsite, all := 0, pi >= 0
+				for _, e := range c.G.In[fn] {
+					cs, ok := e.Site.(ssa.CallInstruction)
+					if !ok || cs.Common().StaticCallee() != fn || pi >= len(cs.Common().Args) {
+						all = false
+						continue
+					}
+					nsite++
+					if !isPackedPayload(cs.Common().Args[pi]) {
+						all = false
+					}
+				}
+				if !all || nsite == 0 {
+					continue
+				}
+			} else if !isPackedPayload(li.rng) {
 				continue
 			}
 			// a counter incremented in the body?
